@@ -192,6 +192,8 @@ func init() {
 			m.opts.MaxTimerFires = v
 		case "switches":
 			m.opts.MaxSwitches = v
+		case "goroutines":
+			m.opts.MaxGoroutines = v
 		case "realqueries":
 			m.opts.RealQueries = v != 0
 		case "notimers":
